@@ -55,7 +55,8 @@ def get_assertion_protected_variables(test_case: tc.TestCase) -> set[str]:
     if not protected:
         return protected
     _add_backward_dependencies(test_case, protected)
-    return protected
+    # Only variables of the test case can be protected (not, e.g., module aliases).
+    return protected & {s.bound_variable for s in test_case.statements()}
 
 
 def _directly_asserted_variables(test_case: tc.TestCase) -> set[str]:
@@ -112,16 +113,42 @@ def _add_backward_dependencies(test_case: tc.TestCase, protected: set[str]) -> N
         protected: The set of protected variable names, mutated in place.
     """
     statements = test_case.statements()
+    bound = {s.bound_variable for s in statements if s.bound_variable is not None}
     changed = True
     while changed:
         changed = False
         for statement in statements:
             bv = statement.bound_variable
-            if bv is not None and bv in protected:
-                for used in statement.used_variables():
-                    if used not in protected:
-                        protected.add(used)
-                        changed = True
+            used = statement.used_variables()
+            # A statement that binds a protected variable or touches a protected object
+            # (see _is_assertion_protected) is kept: so must be everything it reads.
+            if not ((bv is not None and bv in protected) or used & protected & bound):
+                continue
+            for name in used:
+                if name not in protected:
+                    protected.add(name)
+                    changed = True
+
+
+def _is_assertion_protected(statement: tc.Statement, protected: set[str]) -> bool:
+    """Must the statement be kept for the sake of the generated assertions?
+
+    That is the case if it binds a protected variable, carries a reference assertion, or
+    touches a protected object: a call on (or with) an asserted object may change the
+    state a later assertion observes, so removing it would make that assertion stale.
+
+    Args:
+        statement: The statement to inspect.
+        protected: The protected variable names of the test case.
+
+    Returns:
+        True, if the statement must not be removed.
+    """
+    return (
+        statement.bound_variable in protected
+        or _carries_reference_assertion(statement)
+        or any(name in protected for name in statement.used_variables())
+    )
 
 
 class ExceptionTruncation(cv.ChromosomeVisitor):
@@ -322,7 +349,7 @@ class ForwardIterativeMinimizationVisitor(IterativeMinimizationVisitor):
             i = 0
             while i < test_case.size():
                 statement = test_case.get_statement(i)
-                if statement.bound_variable in protected or _carries_reference_assertion(statement):
+                if _is_assertion_protected(statement, protected):
                     i += 1
                     continue
                 test_clone = test_case.clone()
@@ -355,7 +382,7 @@ class BackwardIterativeMinimizationVisitor(IterativeMinimizationVisitor):
             i = test_case.size() - 1
             while i >= 0:
                 statement = test_case.get_statement(i)
-                if statement.bound_variable in protected or _carries_reference_assertion(statement):
+                if _is_assertion_protected(statement, protected):
                     i -= 1
                     continue
                 test_clone = test_case.clone()
@@ -535,9 +562,7 @@ class CombinedMinimizationVisitor(cv.ChromosomeVisitor):
                 i = 0
                 while i < test_case.size():
                     statement = test_case.get_statement(i)
-                    if statement.bound_variable in protected or _carries_reference_assertion(
-                        statement
-                    ):
+                    if _is_assertion_protected(statement, protected):
                         i += 1
                         continue
                     test_suite_clone = chromosome.clone()
